@@ -374,48 +374,79 @@ class FieldExprStub:
 
 
 def field_expression_cases(want):
-    """contract of the helper _field_expression, per class, its recursive call stubbed by the same contract"""
+    """contract of the helper _field_expression on the real function: per class of the argument, and for chains of 1..3 boosts over a
+    group / over anything else (the helper walks down the chain in a loop; longer chains by the uniformity of that loop)"""
     if not hasattr(P, "_field_expression"):
         return []
     cases = []
     from . import treecases
+
+    def obligations(key, x, r, before_text, before_layout, chain, base, base_is_group, want):
+        obls = []
+        if "C01" in want:
+            obls.append(("C01-G/%s/text-preserved" % key, S(model.text(r)) == S(before_text)))
+        if "C02" in want:
+            obls.append(("C02-G/%s/position-and-layout-preserved" % key,
+                         all(a is b_ for a, b_ in zip((r.pos, r.size, r.head, r.tail), before_layout))))
+        if "C03" in want or "C01" in want:
+            if not chain:
+                if base_is_group:
+                    ok = type(r) is T.FieldGroup and r.expr is base.expr
+                else:
+                    # anything else - prefixes included - is returned as it is: parentheses below it do not directly follow `field:`
+                    ok = r is x and len(list(r.children)) == len(base_kids[0]) and all(a is b_ for a, b_ in zip(r.children, base_kids[0]))
+            else:
+                ok = True
+                node = r
+                for bst, snap in zip(chain, chain_snap[0]):      # the boosts are kept (or rebuilt alike): force, implicit force, layout
+                    ok = ok and type(node) is T.Boost and (node.force, node.implicit_force) == snap[:2] and \
+                        all(a is b_ for a, b_ in zip((node.pos, node.size, node.head, node.tail), snap[2:]))
+                    if not ok:
+                        break
+                    node = node.expr
+                if base_is_group:
+                    ok = ok and type(node) is T.FieldGroup and node.expr is base.expr
+                else:
+                    ok = ok and node is base
+            obls.append(("C03-S/%s/group-becomes-field-group-boosts-kept-others-unchanged" % key, ok))
+        if "C04" in want:
+            obls.append(("C04-X/%s/returns-item" % key, isinstance(r, T.Item)))
+        return obls
+    base_kids = [None]
+    chain_snap = [None]
     for la, mk, cls in treecases.instances(layout="sym", ops_shapes=(2,)):
-        if ".parsed" in la or cls is T.NoneItem:
+        if ".parsed" in la or cls is T.NoneItem or cls is T.Boost:
             continue
 
         def run(cx, la=la, mk=mk, cls=cls):
             x, kids = mk("x")
-            real = P._field_expression
-            P._field_expression = FieldExprStub(real)
-            try:
+            base_kids[0] = list(kids)
+            before_text = model.text(x)
+            before_layout = (x.pos, x.size, x.head, x.tail)
+            r = P._field_expression(x)
+            return obligations("helper/_field_expression/%s" % la, x, r, before_text, before_layout, [], x, cls is T.Group, want)
+        cases.append(core.Case("helper/_field_expression/" + la, run, functions=["luqum.parser._field_expression"]))
+    for depth, base_kind, implicit in [(d, b, i) for d in (1, 2, 3) for b in ("group", "other") for i in (False, True)]:
+        if True:
+            def run_chain(cx, depth=depth, base_kind=base_kind, implicit=implicit):
+                if base_kind == "group":
+                    base, _ = model.make_instance(T.Group, "base", layout="sym")
+                else:
+                    base = model.AbsNode("base", layout="sym", classes=[k.__name__ for k in model.UNIVERSE if k not in (T.Group, T.Boost)])
+                node = base
+                chain = []
+                for i in range(depth):
+                    node = T.Boost(node, None if (implicit and i == depth - 1) else 2, head=SymStr(name="bh%d" % i), tail=SymStr(name="bt%d" % i))
+                    chain.append(node)
+                chain.reverse()          # outermost first
+                chain_snap[0] = [(b_.force, b_.implicit_force, b_.pos, b_.size, b_.head, b_.tail) for b_ in chain]
+                x = chain[0]
                 before_text = model.text(x)
                 before_layout = (x.pos, x.size, x.head, x.tail)
-                r = real(x)
-            finally:
-                P._field_expression = real
-            key = "helper/_field_expression/%s" % la
-            obls = []
-            if "C01" in want:
-                obls.append(("C01-G/%s/text-preserved" % key, S(model.text(r)) == S(before_text)))
-            if "C02" in want:
-                obls.append(("C02-G/%s/position-and-layout-preserved" % key,
-                             all(a is b for a, b in zip((r.pos, r.size, r.head, r.tail), before_layout))))
-            if "C03" in want or "C01" in want:
-                exp = T.FieldGroup if cls is T.Group else cls
-                ok = type(r) is exp
-                if cls is T.Group:
-                    ok = ok and r.expr is x.expr
-                elif cls is T.Boost:
-                    ok = ok and r is x and isinstance(r.expr, model.AbsNode) and r.expr.vf_name == kids[0].vf_name + "_fe"
-                else:
-                    # anything else - prefixes included - is returned as it is: parentheses below it do not directly follow `field:`
-                    now = list(r.children)
-                    ok = ok and r is x and len(now) == len(kids) and all(a is b for a, b in zip(now, kids))
-                obls.append(("C03-S/%s/group-becomes-field-group-boost-recurses-others-unchanged" % key, ok))
-            if "C04" in want:
-                obls.append(("C04-X/%s/returns-item" % key, isinstance(r, T.Item)))
-            return obls
-        cases.append(core.Case("helper/_field_expression/" + la, run, functions=["luqum.parser._field_expression"]))
+                r = P._field_expression(x)
+                return obligations("helper/_field_expression/Boost^%d/%s%s" % (depth, base_kind, "/implicit-force" if implicit else ""), x, r, before_text,
+                                   before_layout, chain, base, base_kind == "group", want)
+            cases.append(core.Case("helper/_field_expression/Boost^%d/%s/%s" % (depth, base_kind, implicit), run_chain, functions=["luqum.parser._field_expression"]))
     return cases
 
 
